@@ -134,7 +134,10 @@ func ruleErrPassthrough(c *Ctx) {
 	for _, x := range []struct{ cb, errDesc string }{
 		{lNewSession, "invoke:Backend.NewSession#1"}, {lMail, "invoke:Session.Mail"}, {lRcpt, "invoke:Session.Rcpt"},
 	} {
-		for _, site := range c.Sites(x.cb) {
+		x0 := x
+		for _, es := range c.effSites(x0.cb, x0.errDesc) {
+			site := es.site
+			x := struct{ cb, errDesc string }{x0.cb, es.errDesc}
 			f := site.Parent()
 			found := false
 			for _, we := range s.Find(f, "call:(*Conn).writeError") {
@@ -149,7 +152,6 @@ func ruleErrPassthrough(c *Ctx) {
 				c.obUnreach("error reply", we, x.errDesc+" == nil")
 			}
 			R.Ob(c.siteKey(site, "callback error reaches writeError"), c.P.InstrPos(site), found, "the error of "+x.cb+" is not reported through writeError")
-			site := site
 			c.obFollowH("callback error is reported", f, func(in ssa.Instruction) bool { return in == site }, []string{"call:(*Conn).writeError"}, x.errDesc+" != nil")
 			// the first reply after a failed callback is writeError(451, 4.x.x, <the callback's error itself>): no path
 			// answers with a copy, a rewritten error or another code first
